@@ -226,7 +226,7 @@ class Evaluator:
     rules = self.rules_of[pred]
     cols = head_cols(rules[0])
     agg = any(r.is_agg() or r.distinct for r in rules)
-    if agg and not all(r.distinct for r in rules): raise Unsafe('aggregation without distinct / inconsistent distinct in ' + pred)
+    if agg and not all(r.is_distinct() for r in rules): raise Unsafe('aggregation without distinct / inconsistent distinct in ' + pred)
     sols = []     # (rule, env)
     for r in rules:
       if head_cols(r) != cols and sorted(head_cols(r)) != sorted(cols): raise Unsupported('rules of %s disagree on columns' % pred)
@@ -504,7 +504,6 @@ class Evaluator:
           return None
         res.extend(es); nbs.append(nb)
       nb = set.intersection(*nbs)
-      if any(v for x in nbs for v in (x - nb) if not v.startswith('_')): raise Unsupported('disjuncts bind different variables')
       return res, nb
     raise Unsupported(t)
 
